@@ -59,7 +59,10 @@ TYPES = ["Int", "ByteArray", "Bool", "Data", "Colour", "Shape", "Acc", "Wrap", "
          "Pair<Int, Bool>", "List<List<Int>>", "Option<Option<Int>>", "Pairs<ByteArray, Shape>", "Tagged", "Finally", "Dino", "Wow", "Option<Tagged>",
          # generic instantiations that differ only inside a tuple / pair / nested argument (the compiler caches generated decoders per type)
          "Bx<(Int, Int)>", "Bx<(Int, ByteArray)>", "Bx<Int>", "Bx<ByteArray>", "Bx<List<Int>>", "Bx<List<ByteArray>>", "Bx<Pair<Int, Int>>", "Bx<Pair<Int, ByteArray>>",
-         "Duo<Int, ByteArray>", "Duo<ByteArray, Int>", "Duo<Bx<Int>, Bx<Bool>>", "Duo<Bx<Bool>, Bx<Int>>", "Option<(Int, ByteArray)>", "List<(ByteArray, Colour)>"]
+         "Duo<Int, ByteArray>", "Duo<ByteArray, Int>", "Duo<Bx<Int>, Bx<Bool>>", "Duo<Bx<Bool>, Bx<Int>>", "Option<(Int, ByteArray)>", "List<(ByteArray, Colour)>",
+         # ... and both instantiations inside ONE value, so that one generated program needs both decoders
+         "Duo<Bx<(Int, Int)>, Bx<(Int, ByteArray)>>", "Duo<Bx<Pair<Int, Int>>, Bx<Pair<Int, ByteArray>>>", "Duo<Bx<List<Int>>, Bx<List<ByteArray>>>",
+         "(Option<(Int, Int)>, Option<(Int, ByteArray)>)", "Duo<Bx<Int>, Bx<ByteArray>>", "(Bx<Bool>, Bx<Int>, Bx<Colour>)"]
 
 
 def module_source():
